@@ -260,6 +260,15 @@ def netcdf_roundtrip(w, cont, workdir, idx):
         res["cont_attrs_orig"] = r1["attrs"]
         res["cont_attrs_loaded"] = r2["attrs"]
         res["cont_rec"] = {k: v for k, v in r1.items() if k != "attrs"}
+        # the file is the reference: neither the saved weights nor the loaded ones may have been changed by
+        # the calls that continued from them
+        with xr.open_dataarray(p) as again:
+            again.load()
+        ok1, why1 = same_labelled(w, again)
+        ok2, why2 = same_labelled(loaded, again)
+        res["orig_still_equals_file"] = ok1
+        res["loaded_still_equals_file"] = ok2
+        res["still_why"] = why1 or why2
     os.remove(p)
     return res
 
